@@ -154,6 +154,13 @@ def compare(it, op, a, b):
             return r
         return (not r) if isinstance(r, bool) else mk_bool(neg(r.e))
     o = _CMP[t]
+    setlike = (ISet, set, frozenset)
+    if isinstance(a, setlike) and isinstance(b, setlike) and (isinstance(a, ISet) or isinstance(b, ISet)):
+        if o == "<=":
+            return set_le(it, a, b)
+        if o == ">=":
+            return set_le(it, b, a)
+        raise Unsupported("strict subset test on symbolic sets")
     if isinstance(a, SBV) or isinstance(b, SBV):
         w = a.w if isinstance(a, SBV) else b.w
         sg = a.signed if isinstance(a, SBV) else b.signed
@@ -231,6 +238,15 @@ def sym_in(it, x, cont):
     if isinstance(cont, (list, tuple, set, frozenset)):
         if not deep_sym(x) and not deep_sym(cont):
             return x in cont
+        if isinstance(x, SStr) and len(x) == 1 and isinstance(x.chars[0], SInt) and x.chars[0].dom is not None \
+                and all(isinstance(y, str) and len(y) == 1 for y in cont):
+            c = x.chars[0]
+            hit = c.dom & frozenset(ord(y) for y in cont)
+            if hit == c.dom:
+                return True
+            if not hit:
+                return False
+            return mk_bool(V.in_ranges(c.e, hit))
         parts = []
         for y in cont:
             r = sym_eq(it, x, y)
@@ -427,7 +443,8 @@ def bytes_ptr(it, b):
     cache = it.__dict__.setdefault("_bytes_arrs", {})
     a = cache.get(id(b))
     if a is None or a[0] is not b:
-        a = (b, CArr(list(b) + [0], "char", "bytes"))
+        # seen through a (signed) char*: bytes >= 0x80 are negative, as in C on this platform
+        a = (b, CArr([x - 256 if x >= 128 else x for x in b] + [0], "char", "bytes"))
         cache[id(b)] = a
     return Ptr(a[1], 0, "char")
 
@@ -463,9 +480,9 @@ def _table_lookup(it, idx, elems, cand):
     if len(items) == 1:
         return items[0][0]
     cases = [(V.in_ranges(x, idxs), v) for v, idxs in items]
-    e = z3.IntVal(cases[-1][1])
+    e = V.ival(cases[-1][1])
     for c, v in reversed(cases[:-1]):
-        e = z3.If(c, z3.IntVal(v), e)
+        e = z3.If(c, V.ival(v), e)
     return SInt(e, min(vals), max(vals), cases=cases, dom=frozenset(groups) if len(groups) <= 64 else None)
 
 
@@ -512,7 +529,7 @@ def arr_read(it, arr, idx, what="array"):
 
 def arr_write(it, arr, idx, v, what="array"):
     n = len(arr.elems)
-    a = it.absg()
+    a = it.sg()
     mod = it.frame.module
     t = mod.types.parse(arr.ctype) if isinstance(arr.ctype, str) else None
     if t is not None and t.kind in ("int", "bool", "struct"):
@@ -526,7 +543,7 @@ def arr_write(it, arr, idx, v, what="array"):
         if a.is_true() or isinstance(old, Indeterminate):
             arr.elems[idx] = v
         else:
-            arr.elems[idx] = merge(a.e, v, old, a)
+            arr.elems[idx] = it.merge_typed(arr.ctype if isinstance(arr.ctype, str) else None, a.e, v, old, a)
         return
     lo, hi = V.bounds(idx)
     if lo is None or hi is None or lo < 0 or hi >= n:
@@ -538,7 +555,7 @@ def arr_write(it, arr, idx, v, what="array"):
         c = idx.e == i
         if not a.is_true():
             c = z3.And(a.e, c)
-        arr.elems[i] = merge(c, v, old)
+        arr.elems[i] = it.merge_typed(arr.ctype if isinstance(arr.ctype, str) else None, c, v, old)
 
 
 def norm_index(i, n):
@@ -656,7 +673,7 @@ def setitem(it, obj, idx, v):
         return arr_write(it, obj, idx, v)
     if isinstance(obj, IDict):
         return obj.set(idx, v)
-    a = it.absg()
+    a = it.sg()
     if isinstance(obj, list):
         if isinstance(idx, SInt):
             raise Unsupported("list store at a symbolic index")
@@ -695,9 +712,18 @@ class ISet:
     """Set whose elements may be symbolic: insertion compares with every element; a symbolic
     equality forks (fork mode only).  Elements are pairwise distinct under the path condition."""
 
-    def __init__(self, it, items=()):
+    def __init__(self, it, items=(), multi=False):
         self.it = it
-        self.items = list(items)
+        self._items = list(items)
+        self.multi = multi   # True: built from a symbolic string without de-duplication (lazy)
+
+    @property
+    def items(self):
+        if self.multi:
+            raw, self._items, self.multi = self._items, [], False
+            for x in raw:
+                self.add(x)
+        return self._items
 
     def key_eq(self, a, b):
         r = sym_eq(self.it, a, b)
@@ -714,19 +740,24 @@ class ISet:
         self.items.append(x)
 
     def contains(self, x):
-        if self.it.merge:
-            parts = []
-            for y in self.items:
-                r = sym_eq(self.it, x, y)
-                if r is True:
+        # a pure query: one disjunction (the caller branches once), never a fork per element
+        if isinstance(x, (str, SStr)) and len(x) == 1:
+            c = V.str_chars(x)[0]
+            if isinstance(c, SInt) and c.dom is not None and all(isinstance(y, str) and len(y) == 1 for y in self._items):
+                hit = c.dom & frozenset(ord(y) for y in self._items)
+                if hit == c.dom:
                     return True
-                if r is not False:
-                    parts.append(r.e)
-            return mk_bool(z3.Or(*parts)) if parts else False
-        for y in self.items:
-            if self.key_eq(x, y):
+                if not hit:
+                    return False
+                return mk_bool(V.in_ranges(c.e, hit))
+        parts = []
+        for y in self._items:
+            r = sym_eq(self.it, x, y)
+            if r is True:
                 return True
-        return False
+            if r is not False:
+                parts.append(r.e)
+        return mk_bool(z3.Or(*parts)) if parts else False
 
     def keys_list(self):
         return list(self.items)
@@ -752,7 +783,7 @@ class ISet:
         return set(self.items)
 
     def __repr__(self):
-        return "ISet(%r)" % (self.items,)
+        return "ISet(%r)" % (self._items,)
 
 
 class IDict:
@@ -1007,7 +1038,7 @@ def m_str_count(it, s, sub, *rest):
         if r is True:
             total = V.int_add(total, 1)
         elif r is not False:
-            total = V.int_add(total, mk_int(z3.If(r.e, 1, 0), 0, 1))
+            total = V.int_add(total, mk_int(z3.If(r.e, V.ival(1), V.ival(0)), 0, 1))
     return total
 
 
@@ -1037,7 +1068,8 @@ def m_bytes_decode(it, s, *a):
 
 def m_bytes_translate(it, s, table):
     arr = bytes_ptr(it, table).arr if isinstance(table, bytes) else table.arr
-    return V.mk_str([arr_read(it, arr, c) for c in V.str_chars(s)], "bytes")
+    out = [arr_read(it, arr, c) for c in V.str_chars(s)]
+    return V.mk_str([x % 256 if isinstance(x, int) else x for x in out], "bytes")
 
 
 def m_str_isascii(it, s):
@@ -1145,7 +1177,7 @@ def m_set_union(it, s, *others):
 
 def set_le(it, a, b):
     parts = []
-    for x in a:
+    for x in (a._items if isinstance(a, ISet) else a):
         r = sym_in(it, x, b)
         if r is False:
             return False
@@ -1201,12 +1233,22 @@ def m_dict___contains__(it, d, k):
 
 
 # ------------------------------------------------------------------------------ native calls & builtins
+_SAFE_CONTAINER_METHODS = {"append", "extend", "insert", "pop", "items", "keys", "values", "copy", "clear", "setdefault", "update", "reverse", "get"}
+
+
 def call_native(it, f, args, kwargs):
     model = BUILTIN_MODELS.get(id(f))
     if model is not None:
         return model(it, *args, **kwargs)
     if isinstance(f, type) and f in TYPE_MODELS:
         return TYPE_MODELS[f](it, *args, **kwargs)
+    recv = getattr(f, "__self__", None)
+    if isinstance(recv, (list, dict)) and getattr(f, "__name__", "") in _SAFE_CONTAINER_METHODS:
+        if isinstance(recv, dict) and f.__name__ in ("get", "setdefault", "pop") and deep_sym(args[0]):
+            raise Unsupported("native dict.%s with a symbolic key" % f.__name__)
+        if not it.absg().is_true() and f.__name__ not in ("items", "keys", "values", "copy", "get"):
+            raise Unsupported("container mutation %s under a symbolic guard" % f.__name__)
+        return f(*args, **kwargs)
     if deep_sym(list(args)) or deep_sym(kwargs):
         if isinstance(f, type) and issubclass(f, BaseException):
             return f(*["<sym>" if deep_sym(a) else a for a in args])
@@ -1516,6 +1558,8 @@ def t_str(it, x=""):
 
 
 def t_set(it, xs=()):
+    if isinstance(xs, SStr) and not xs.is_concrete():
+        return ISet(it, [V.mk_str([c], xs.kind) for c in xs.chars], multi=True)
     s = ISet(it)
     for x in it.iterate_concrete(xs):
         s.add(x)
@@ -1523,6 +1567,8 @@ def t_set(it, xs=()):
 
 
 def t_frozenset(it, xs=()):
+    if isinstance(xs, SStr) and not xs.is_concrete():
+        return t_set(it, xs)
     xs = list(it.iterate_concrete(xs))
     if not deep_sym(xs):
         return frozenset(xs)
@@ -1682,10 +1728,11 @@ def x_strlen(it, p):
     n = 0
     while True:
         c = arr_read(it, p.arr, V.int_add(p.off, n))
-        if isinstance(c, SInt):
-            raise Unsupported("strlen of a symbolic buffer")
-        if c == 0:
+        r = V.int_cmp("==", c, 0)
+        if r is True:
             return n
+        if r is not False:
+            raise Unsupported("strlen of a buffer with a symbolic terminator position")
         n += 1
 
 
